@@ -526,7 +526,7 @@ def fixed_scenarios():
     # the merge of 5 (child of 3) and 6 (child of 2) braids with base 3; same DAG under another segmentation
     mq = merge_id(5, 6)
     dq = dag([(1, "i", (), 1, (("S", 0, 1),)), (2, 1, (1,), 0, (("E", 5),)), (3, 9, (2,), 0, ()), (4, 1, (3,), 0, (("A", 0, 4), ("S", 2, 4))),
-              (5, 1, (3,), 0, (("A", 0, 5),)), (6, 1, (2,), 0, (("A", 0, 6),)), (mq, "m", (5, 6), 0, ()), (7, 1, (mq,), 0, (("A", 0, 7), ("C", 2, 3)))])
+              (5, 1, (3,), 0, (("A", 0, 5),)), (6, 1, (2,), 0, (("A", 0, 6),)), (mq, "m", (5, 6), 0, ()), (7, 1, (mq,), 0, (("A", 0, 70), ("C", 2, 3)))])
     out.append(("quiet-mid-a", dq, [("open", 0), ("add", 0, [1]), ("add", 0, [2, 3, 4]), ("add", 0, [5]), ("add", 0, [6]), ("add", 0, [mq]),
                                     ("add", 0, [7]), ("commit", 0), ("sess",)]))
     out.append(("quiet-mid-b", dq, [("open", 0), ("add", 0, [1]), ("add", 0, [2]), ("flush", 0), ("add", 0, [3]), ("flush", 0), ("add", 0, [4]),
